@@ -1026,7 +1026,14 @@ def bundle_rules(prop):
 
         c03 = importlib.import_module("sa.rules.c03")
         for part in BUNDLE_PARTS:
-            for o in getattr(c03, part)(ctx):
+            try:
+                got = list(getattr(c03, part)(ctx))
+            except AnalysisError as e:
+                # a routing rule that cannot read some *other* module's evaluate() says nothing about this property
+                if part in ("rule_filterimpl", "rule_decorated") or any((m_ + ".") in (e.why or "") for m_ in mods):
+                    raise
+                continue
+            for o in got:
                 m = o.construct.split(":")[0].split(".")[0]
                 if m in mods or part in ("rule_filterimpl", "rule_decorated"):
                     o.rule = prop + ".BUNDLE"
